@@ -63,6 +63,8 @@ struct Inner {
     /// async sends waiting for capacity, in order of issue
     waiting: Vec<(u32, BoxFut<crate::Result<()>>, Arc<Flag>)>,
     hflag: Arc<Flag>,
+    /// sink clones handed out by `notification_sink()`
+    sinks: Vec<NotificationSink>,
 }
 
 pub struct ChanBox {
@@ -245,6 +247,7 @@ impl VerifBox for ChanBox {
                 live: None,
                 waiting: Vec::new(),
                 hflag: Flag::new(true),
+                sinks: Vec::new(),
             });
             return "ok".into();
         }
@@ -330,6 +333,54 @@ impl VerifBox for ChanBox {
                         inner.waiting.push((seq as u32, fut, flag));
                         "waiting".into()
                     }
+                }
+            }
+            ["sink"] => match inner.handle.notification_sink(p1) {
+                Some(sink) => {
+                    inner.sinks.push(sink);
+                    format!("ok sink={}", inner.sinks.len() - 1)
+                }
+                None => "none".into(),
+            },
+            [op @ ("csync" | "casync"), k, seq, size] => {
+                let (Some(k), Some(seq), Some(size)) = (num(k), num(seq), num(size)) else {
+                    return "bad-op".into();
+                };
+                let Some(sink) = inner.sinks.get(k).cloned() else { return "ignored".into() };
+                if *op == "csync" {
+                    return match sink.send_sync_notification(payload(b's', seq as u32, size)) {
+                        Ok(()) => "ok".into(),
+                        Err(NotificationError::ChannelClogged) => "clogged".into(),
+                        Err(NotificationError::NoConnection) => "noconn".into(),
+                        Err(_) => "other".into(),
+                    };
+                }
+                let data = payload(b'a', seq as u32, size);
+                let mut fut: BoxFut<crate::Result<()>> =
+                    Box::pin(async move { sink.send_async_notification(data).await });
+                let flag = Flag::new(false);
+                let waker = Waker::from(Arc::clone(&flag));
+                match fut.as_mut().poll(&mut Context::from_waker(&waker)) {
+                    Poll::Ready(Ok(())) => "ok".into(),
+                    Poll::Ready(Err(_)) => "noconn".into(),
+                    Poll::Pending => {
+                        inner.waiting.push((seq as u32, fut, flag));
+                        "waiting".into()
+                    }
+                }
+            }
+            ["hasync", seq, size] => {
+                // the handle's own async send, polled once; a send that has to wait is dropped
+                let (Some(seq), Some(size)) = (num(seq), num(size)) else { return "bad-op".into() };
+                let known = inner.handle.notification_sink(p1).is_some();
+                let fut = inner.handle.send_async_notification(p1, payload(b'a', seq as u32, size));
+                futures::pin_mut!(fut);
+                let waker = Waker::from(Flag::new(false));
+                match fut.poll(&mut Context::from_waker(&waker)) {
+                    Poll::Ready(Ok(())) => "ok".into(),
+                    Poll::Ready(Err(_)) if known => "noconn".into(),
+                    Poll::Ready(Err(_)) => "nopeer".into(),
+                    Poll::Pending => "blocked".into(),
                 }
             }
             ["run"] => inner.run(),
